@@ -5,7 +5,7 @@ from ..core import Unrecognised, norm, call_name, walk_no_nested, const_str, if_
 from ..atoms import ATOMS, AtomEval, Unknown, ladder
 from ..rx import Rx, Lang, included, parse_tree, MAXREPEAT
 from ..lib import library_functions
-from .c02 import classify_expr_regexes
+from ..exprsim import classify_expr_regexes
 
 EXPLANATION = (
     'The shortest-repr round trip of finite doubles is CPython\'s float.__repr__/float() contract and is assumed; what '
